@@ -68,7 +68,7 @@ def run_valid(spec):
 FAULTS = ["pins_do_not_fit", "wire_too_thick", "clad_too_thick", "nonpositive_dimension", "duct_not_smaller_than_pitch",
           "unequal_outer_ducts", "inverted_axial_region", "overlapping_axial_regions", "missing_boundary_condition",
           "two_boundary_conditions", "unknown_coolant", "unknown_duct_material", "unknown_correlation",
-          "power_wrong_item_count", "power_axial_gap", "power_not_core_length", "power_negative", "odd_duct_ftf",
+          "power_wrong_item_count", "power_axial_gap", "power_not_core_length", "power_negative", "power_not_a_number", "odd_duct_ftf",
           "bypass_fraction_zero_with_flow_gap"]
 
 
@@ -164,6 +164,9 @@ def inject(spec, fault, mag, pick):
         elif fault == "power_negative":
             for cell in comp["explicit"]:
                 cell[pick % len(cell)][0] = -abs(cell[pick % len(cell)][0]) * eps - 1e-3
+        elif fault == "power_not_a_number":
+            cell = comp["explicit"][pick % len(comp["explicit"])]
+            cell[pick % len(cell)][pick % len(cell[0])] = float("nan") if eps < 0.05 else float("inf")
     elif fault == "odd_duct_ftf":
         a["duct_ftf"] = list(a["duct_ftf"])[:-1] if len(a["duct_ftf"]) > 2 else list(a["duct_ftf"]) + [max(a["duct_ftf"]) * 0.999]
     elif fault == "bypass_fraction_zero_with_flow_gap":
